@@ -959,3 +959,104 @@ func interleave(cases []Case, shards int) []Case {
 	}
 	return res
 }
+
+// genHashChurnSweeps: the hash part after MANY deletions — n keys inserted (strings, non-array numbers, booleans,
+// through every store path), the first / last / alternate d of them deleted, then 1..3 brand-new keys inserted and, now
+// and then, an old key re-inserted — followed by complete traversals (Go Next, Lua next, ForEach) and reads of every
+// key: any bookkeeping of the insertion-order list that is rebuilt, compacted or trimmed on some threshold of dead
+// keys must keep "every present key exactly once".  n and d sweep small values and the powers of two around 32/64/128.
+func genHashChurnSweeps(maxN int) []Case {
+	var cases []Case
+	idx := 0
+	key := func(i int) string {
+		switch i % 4 {
+		case 0:
+			return "s" + c09HexOf("k"+strconv.Itoa(i))
+		case 1:
+			return "i" + strconv.Itoa(200000000+i*7) // beyond MaxArrayIndex: a hash-part key
+		case 2:
+			return "i" + strconv.Itoa(-i) // zero and negative integers are hash-part keys too
+		default:
+			return "f" + strconv.FormatUint(math.Float64bits(float64(i)+0.5), 10) // non-integral number
+		}
+	}
+	// store paths valid for the key's class (RawSetString for strings, RawSetH for non-string hash-part keys only)
+	setOp := func(b *caseBuilder, i int, k, v string) {
+		switch {
+		case k[0] == 's' && i%3 == 0:
+			b.add("sets", "1", k, v)
+		case k[0] != 's' && i%3 == 1:
+			b.add("seth", "1", k, v)
+		case i%3 == 2:
+			b.add("lset", "1", k, v)
+		default:
+			b.add("set", "1", k, v)
+		}
+	}
+	for _, n := range []int{3, 8, 33, 34, 40, 65, 66, 70, 130} {
+		if n > maxN {
+			continue
+		}
+		for _, d := range []int{n / 2, n - 1, n, 32, 33, 64, 65} {
+			if d < 0 || d > n {
+				continue
+			}
+			for pattern := 0; pattern < 3; pattern++ { // delete the first d / the last d / every other key up to d
+				for fresh := 2; fresh <= 3; fresh++ {
+					if (n+d+pattern+fresh)%2 == 1 && n > 40 {
+						continue // half of the big grid per run shape keeps the quick tier quick
+					}
+					b := &caseBuilder{}
+					b.add("new", "1", "0")
+					for i := 0; i < n; i++ {
+						setOp(b, i, key(i), sweepVal(i+1))
+					}
+					deleted := map[int]bool{}
+					for j := 0; j < d; j++ {
+						i := j
+						switch pattern {
+						case 1:
+							i = n - 1 - j
+						case 2:
+							i = (2 * j) % n
+							for deleted[i] {
+								i = (i + 1) % n
+							}
+						}
+						deleted[i] = true
+						setOp(b, i+j, key(i), "nil")
+					}
+					for f := 0; f < fresh; f++ {
+						setOp(b, f, key(n+10+f), sweepVal(500+f))
+						if f == 1 && d > 0 { // an old key comes back
+							for i := range deleted {
+								setOp(b, i, key(i), sweepVal(900))
+								delete(deleted, i)
+								break
+							}
+						}
+					}
+					for _, mode := range []string{"go", "lua", "api"} {
+						b.add("trav", "1", "1", mode, "0")
+					}
+					b.add("foreach", "1")
+					for i := 0; i < n+13; i += 1 + n/16 {
+						b.add("get", "1", key(i))
+					}
+					cases = append(cases, Case{Idx: 4500000 + idx, Ops: b.ops, Note: "hash-churn"})
+					idx++
+				}
+			}
+		}
+	}
+	return cases
+}
+
+func c09HexOf(s string) string {
+	const hx = "0123456789abcdef"
+	b := make([]byte, 0, 2*len(s))
+	for i := 0; i < len(s); i++ {
+		b = append(b, hx[s[i]>>4], hx[s[i]&15])
+	}
+	return string(b)
+}
